@@ -154,6 +154,24 @@ where
         Ok(cli)
     }
 
+    #[cfg(feature = "verif-hooks")]
+    #[doc(hidden)]
+    pub fn verif_editor(&self) -> Option<(&[u8], usize, usize)> {
+        self.editor.as_ref().map(|editor| editor.verif_raw())
+    }
+
+    #[cfg(all(feature = "verif-hooks", feature = "history"))]
+    #[doc(hidden)]
+    pub fn verif_history(&self) -> (&[u8], usize, Option<usize>) {
+        self.history.verif_raw()
+    }
+
+    #[cfg(feature = "verif-hooks")]
+    #[doc(hidden)]
+    pub fn verif_prompt(&self) -> &'static str {
+        self.prompt
+    }
+
     /// Each call to process byte can be done with different
     /// command set and/or command processor.
     /// In process callback you can change some outside state
